@@ -1,0 +1,13 @@
+//go:build verif
+
+package faucetsc
+
+import "github.com/0chain/common/core/util"
+
+// VerifEntityPrototypes returns the stored types of this contract (verification harness, C08).
+func VerifEntityPrototypes() []func() util.MPTSerializable {
+	return []func() util.MPTSerializable{
+		func() util.MPTSerializable { return &GlobalNode{} },
+		func() util.MPTSerializable { return &UserNode{} },
+	}
+}
